@@ -241,7 +241,7 @@ def structural(tier, res):
 
 ORACLES = [
     {'name': 'view membership, totals and independence on the real analyzer + section engine against an independent specification of the documented primitives',
-     'script': 'C10.py', 'bound': '17 transactions of 10 merchants, 29 filters: each alone, ordered pairs (all in thorough, 1/6 in quick), all together in both orders'},
+     'script': 'C10.py', 'bound': '20 transactions of 11 merchants (one spanning two years), 31 filters incl. view-local variables shadowing primitives: each alone, ordered pairs (all in thorough, 1/6 in quick; views with locals against every other view always), all together in both orders'},
 ]
 TRUSTED_BASE = ['pyvc symbolic executor and frame checker', 'z3 5.1.0 / cvc5 1.0.3',
                 'expr_parser.evaluate / evaluate_ast raise at most ExpressionError (C08) and are deterministic functions of (filter, context)']
